@@ -270,10 +270,11 @@ Proof.
 Qed.
 
 (* detectors: after the run the state holds exactly one row per on step, in chronological order *)
+Lemma set_at_middle {R} (pre : list R) x rest v : set_at (pre ++ x :: rest) (length pre) v = pre ++ v :: rest.
+Proof. induction pre as [|p pre IH]; cbn; [reflexivity|]. rewrite IH. reflexivity. Qed.
 Lemma zset_middle {R} (pre : list R) x rest v : zset (pre ++ x :: rest) (Z.of_nat (length pre)) v = pre ++ v :: rest.
 Proof.
-  unfold zset. destruct (Z.ltb_spec (Z.of_nat (length pre)) 0); [lia|]. rewrite Nat2Z.id.
-  induction pre as [|p pre IH]; cbn; [reflexivity|]. rewrite IH. reflexivity.
+  unfold zset. destruct (Z.ltb_spec (Z.of_nat (length pre)) 0); [lia|]. rewrite Nat2Z.id. apply set_at_middle.
 Qed.
 Lemma det_fold {R} (obs : Z -> R) : forall on done_on (pre rest : list R),
   Z.of_nat (length pre) = num_on done_on -> Z.of_nat (length rest) = num_on on ->
@@ -293,17 +294,17 @@ Proof.
     + assert (Hi : znth (idx_map ((done_on ++ [true]) ++ r)) (Z.of_nat (length done_on)) (-1) = Z.of_nat (length pre)).
       { rewrite znth_of_nat', idx_map_spec by (rewrite !app_length; cbn; lia).
         rewrite <- app_assoc. rewrite app_nth2 by lia. rewrite Nat.sub_diag. cbn [app nth].
-        rewrite firstn_app, Nat.sub_diag, firstn_all. cbn [firstn]. rewrite app_nil_r. lia. }
-      rewrite Hi. rewrite num_on_cons in Hr. destruct rest as [|x rest']; [cbn in Hr; pose proof (num_on_nonneg r); lia|].
+        rewrite firstn_app, Nat.sub_diag, firstn_all. cbn [firstn]. rewrite app_nil_r. symmetry. exact Hp. }
+      rewrite Hi. rewrite num_on_cons in Hr. destruct rest as [|x rest']; [cbn [length] in Hr; pose proof (num_on_nonneg r); lia|].
       rewrite zset_middle.
       replace (pre ++ obs (Z.of_nat (length done_on)) :: rest') with ((pre ++ [obs (Z.of_nat (length done_on))]) ++ rest')
         by (rewrite <- app_assoc; reflexivity).
       rewrite <- Hlen. rewrite (IH (done_on ++ [true]) (pre ++ [obs (Z.of_nat (length done_on))]) rest').
-      * rewrite <- app_assoc. cbn [app map]. rewrite Hlen. do 3 f_equal. lia.
+      * rewrite <- app_assoc. cbn [app map]. rewrite Hlen. do 4 f_equal. lia.
       * rewrite app_length, num_on_app. cbn [length]. unfold num_on at 2. cbn. lia.
       * cbn [length] in Hr. lia.
     + rewrite <- Hlen. rewrite (IH (done_on ++ [false]) pre rest).
-      * cbn [app]. rewrite Hlen. do 2 f_equal. lia.
+      * cbn [app]. rewrite Hlen. do 3 f_equal. lia.
       * rewrite num_on_app. unfold num_on at 2. cbn. lia.
       * rewrite num_on_cons in Hr. lia.
 Qed.
